@@ -322,6 +322,14 @@ def apply_edit(root, ed):
     """`node.left = branch` / `node.right = branch` through the public setters, parent/flag as GP._mutate sets them."""
     node = extract(root)[1][ed['at']]
     branch = build(ed['new'], [])
+    donor = None
+    if ed.get('donor'):
+        # the branch comes out of ANOTHER tree, as in GP._cross: it still hangs in its donor's left slot while it is attached here,
+        # and the donor's slot is overwritten afterwards
+        donor = Node(name='SUM', type='FUNCTION')
+        donor.left = branch
+        branch.flag = True
+        branch.parent = donor
     if ed['side'] == 'left':
         node.left = branch
         branch.flag = True
@@ -329,6 +337,11 @@ def apply_edit(root, ed):
         node.right = branch
         branch.flag = False
     branch.parent = node
+    if donor is not None:
+        other = build(['x0', None, None], []) if False else Node(name='x0', type='TERMINAL', value=np.zeros((1, 1)))
+        donor.left = other
+        other.flag = True
+        other.parent = donor
 
 
 def random_script(lsh, rnd):
@@ -349,6 +362,8 @@ def random_script(lsh, rnd):
             if old is None or len(lsh_nodes(new)) != len(lsh_nodes(old)) or depth_of(new) != depth_of(old):
                 break
         ed = {'at': at, 'side': side, 'new': new}
+        if (len(script) + at) % 2 == 1:
+            ed['donor'] = True
         script.append(ed)
         cur = lsh_replace(cur, at, side, new)
     return script
